@@ -9,12 +9,17 @@
 // A poll that neither returns nor parks within spinTimeout holds the limiter's mutex for ever
 // (the inner search loop found no free id): the driver prints `spin` and answers `wedged` for
 // every op until the next `new`, without touching the limiter (every method would block on the mutex).
+// The spinning goroutine cannot be stopped, so right after reporting it the driver replaces its own
+// process image (exec of itself, rest of stdin handed over in a temp file, `-wedged` carries the state).
 package main
 
 import (
+	"bufio"
+	"os"
 	"runtime"
 	"strconv"
 	"strings"
+	"syscall"
 	"time"
 
 	"verifharness/internal/drv"
@@ -23,14 +28,63 @@ import (
 	"github.com/DrmagicE/gmqtt/server"
 )
 
-const spinTimeout = 5 * time.Second
+const spinTimeout = 2 * time.Second
 
-func main() { drv.Main(&limDrv{}) }
+func main() {
+	d := &limDrv{}
+	if len(os.Args) > 1 && os.Args[1] == "-wedged" {
+		d.wedged = true
+	}
+	in := bufio.NewScanner(os.Stdin)
+	in.Buffer(make([]byte, 1<<20), 1<<26)
+	out := bufio.NewWriterSize(os.Stdout, 1<<16)
+	defer out.Flush()
+	for in.Scan() {
+		out.WriteString(drv.SafeStep(d, in.Text()))
+		out.WriteByte('\n')
+		if d.spun {
+			out.Flush()
+			reexec(in)
+			d.spun = false // exec failed: carry on with the spinner in the background
+		}
+	}
+}
+
+// reexec hands the unread input to a fresh image of this program; returns only on failure.
+func reexec(in *bufio.Scanner) {
+	f, err := os.CreateTemp("", "drive_limiter_rest_*")
+	if err != nil {
+		return
+	}
+	os.Remove(f.Name())
+	w := bufio.NewWriter(f)
+	for in.Scan() {
+		w.WriteString(in.Text())
+		w.WriteByte('\n')
+	}
+	if w.Flush() != nil {
+		return
+	}
+	if _, err := f.Seek(0, 0); err != nil {
+		return
+	}
+	if err := syscall.Dup2(int(f.Fd()), 0); err != nil {
+		// the rest of the input is consumed; nothing sensible is left to do in this process
+		os.Exit(3)
+	}
+	exe, err := os.Executable()
+	if err != nil {
+		os.Exit(3)
+	}
+	syscall.Exec(exe, []string{exe, "-wedged"}, os.Environ())
+	os.Exit(3)
+}
 
 type limDrv struct {
 	l       *server.VerifLimiter
 	pending chan []packets.PacketID // result channel of the parked poll, nil if none
 	wedged  bool
+	spun    bool // a spin was detected during the current step
 }
 
 func parkedInCondWait() bool {
@@ -107,7 +161,7 @@ func (d *limDrv) afterSignal() string {
 	case parked:
 		return "ok" + d.state()
 	}
-	d.wedged = true
+	d.wedged, d.spun = true, true
 	return "ok woke:spin"
 }
 
@@ -150,11 +204,11 @@ func (d *limDrv) Step(line string) string {
 		}
 		return "ok" + d.state()
 	}
-	if d.l == nil {
-		return "bad-op"
-	}
 	if d.wedged {
 		return "wedged"
+	}
+	if d.l == nil {
+		return "bad-op"
 	}
 	switch f[0] {
 	case "poll":
@@ -174,7 +228,7 @@ func (d *limDrv) Step(line string) string {
 		case parked:
 			return "blocked" + d.state()
 		}
-		d.wedged = true
+		d.wedged, d.spun = true, true
 		return "spin"
 	case "release":
 		if len(f) != 2 {
